@@ -384,6 +384,8 @@ def gen_soft_rects(rng, mode: str):
         x0, y0 = value(rng, mode, 0, 8, False), value(rng, mode, 0, 8, False)
         reg = rng.choice([None, None, rng.choice(REGIONS)])
         out.append(rect_from_box(rng, x0, y0, x0 + w, y0 + h, reg))
+    if rng.random() < 0.1:      # the same rectangle twice (create_stog tells them apart by identity, not by value)
+        out.insert(rng.randint(0, len(out)), list(rng.choice(out)))
     return out
 
 
